@@ -620,6 +620,52 @@ func HandleListUsers(cc *hotline.ClientConn, t *hotline.Transaction) (res []hotl
 // contains another data field encoded in its payload with a varying number of sub fields depending on which action is
 // performed.  This seems to be the only place in the Hotline protocol where a data field contains another data field.
 func HandleUpdateUser(cc *hotline.ClientConn, t *hotline.Transaction) (res []hotline.Transaction) {
+	// A request with several entries is refused as a whole when the requester lacks the privilege one of them needs:
+	// check every entry before the first one is carried out, so that an error reply never comes with part of the
+	// request done.  (The loop below checks again; an entry may depend on the one before it.)
+	for _, field := range t.Fields {
+		if len(field.Data) < 2 {
+			continue
+		}
+
+		var subFields []hotline.Field
+
+		scanner := bufio.NewScanner(bytes.NewReader(field.Data[2:]))
+		scanner.Split(hotline.FieldScanner)
+
+		for i := 0; i < int(binary.BigEndian.Uint16(field.Data[0:2])); i++ {
+			scanner.Scan()
+
+			var subField hotline.Field
+			if _, err := subField.Write(scanner.Bytes()); err != nil {
+				return res
+			}
+			subFields = append(subFields, subField)
+		}
+
+		switch {
+		case len(subFields) == 1:
+			if !cc.Authorize(hotline.AccessDeleteUser) {
+				return cc.NewErrReply(t, "You are not allowed to delete accounts.")
+			}
+		case hotline.GetField(hotline.FieldUserLogin, &subFields) == nil:
+			// left to the loop below
+		default:
+			existing := hotline.GetField(hotline.FieldUserLogin, &subFields).Data
+			if rename := hotline.GetField(hotline.FieldData, &subFields); rename != nil && len(rename.Data) > 0 {
+				existing = rename.Data
+			}
+
+			if cc.Server.AccountManager.Get(string(hotline.EncodeString(existing))) != nil {
+				if !cc.Authorize(hotline.AccessModifyUser) {
+					return cc.NewErrReply(t, "You are not allowed to modify accounts.")
+				}
+			} else if !cc.Authorize(hotline.AccessCreateUser) {
+				return cc.NewErrReply(t, "You are not allowed to create new accounts.")
+			}
+		}
+	}
+
 	for _, field := range t.Fields {
 		var subFields []hotline.Field
 
